@@ -560,6 +560,53 @@ Proof.
   eexists. repeat split; try discriminate.
 Qed.
 
+(* ---- cache without storage on a storing cache: the validators are those of the lower tile ------------------ *)
+Lemma attach_source_info : forall t ci, attach_source t (WInfo ci) = ci.
+Proof. intros t [c ts sz]. reflexivity. Qed.
+
+(* a bool from an ordinary source leaves the tile without timestamp and size (tile_buffer fills them on store) *)
+Lemma attach_source_bool : forall t b,
+  attach_source t (WBool b) = {| ti_cacheable := b; ti_ts := None; ti_size := None |}.
+Proof. reflexivity. Qed.
+
+Lemma passthrough_is_lower_step : forall h tps ma t0 st ev,
+  step_passthrough h tps ma t0 st ev = step h tps ma st ev.
+Proof.
+  intros h tps ma t0 st ev. destruct ev as [svc k inm ims up|svc k inm ims up|k e|k]; cbn [step_passthrough step].
+  - destruct (load st k up) as [st' [[ci body]|]]; [rewrite attach_source_info|]; reflexivity.
+  - destruct (load_stale st k up) as [st' [[ci body]|]]; [rewrite attach_source_info|]; reflexivity.
+  - reflexivity.
+  - reflexivity.
+Qed.
+
+Lemma passthrough_answer : forall h tps ma t0 st svc k inm ims up e st' r,
+  lookup st k = Some e ->
+  step_passthrough h tps ma t0 st (Req svc k inm ims up) = (st', Some (Resp r)) ->
+  st' = st /\ answer_for h tps e r.
+Proof.
+  intros h tps ma t0 st svc k inm ims up e st' r H Hs. rewrite passthrough_is_lower_step in Hs.
+  exact (step_req_cached_answer h tps ma st svc k inm ims up e st' r H Hs).
+Qed.
+
+(* the order of the two assignments matters: resetting AFTER the CacheInfo was copied loses the validators *)
+Example ex_reset_after_attach_loses_validators :
+  let ci := {| ti_cacheable := true; ti_ts := Some {| st_ticks := 8; st_repr := [56] |}; ti_size := Some 700 |} in
+  attach_source {| ti_cacheable := true; ti_ts := None; ti_size := None |} (WInfo ci) = ci /\
+  (let t := set_cacheable {| ti_cacheable := true; ti_ts := None; ti_size := None |} (WInfo ci) in
+   {| ti_cacheable := ti_cacheable t; ti_ts := None; ti_size := None |}) <> ci.
+Proof. split; [reflexivity|discriminate]. Qed.
+
+Example ex_passthrough_304_then_200 :
+  let e1 := {| e_ts := {| st_ticks := 8; st_repr := [56] |}; e_size := 700; e_body := 1 |} in
+  let e2 := {| e_ts := {| st_ticks := 9; st_repr := [57] |}; e_size := 705; e_body := 2 |} in
+  let t0 := {| ti_cacheable := true; ti_ts := None; ti_size := None |} in
+  let inm := Some (etag_of_entry (fun s => s) e1) in
+  (exists r, step_passthrough (fun s => s) 1 (Some 60) t0 [(3, e1)] (Req TMS 3 inm ImsAbsent UErr) = ([(3, e1)], Some (Resp r))
+             /\ r_status r = 304) /\
+  (exists r, step_passthrough (fun s => s) 1 (Some 60) t0 [(3, e2)] (Req TMS 3 inm ImsAbsent UErr) = ([(3, e2)], Some (Resp r))
+             /\ r_status r = 200 /\ r_body r = Some 2).
+Proof. split; eexists; repeat split. Qed.
+
 (* a GetMap whose result is merged from several images (the merger's cacheable is a bool): no validators are sent
    and the answer is never conditional - tiled or not *)
 Lemma serve_wms_merged : forall h tps max_age tiled body inm ims,
